@@ -248,6 +248,39 @@ def esc2_drivers(ctx, c):
                     c.finding(site, "indexes the statement list, which is empty for a source without statements",
                               "%s reads %s with no emptiness check and outside any handler: a source file that holds only blank lines and comments gives an empty list, and the "
                               "IndexError leaves the assembler as a traceback" % (f.q, U(x)), repo.loc(f, x))
+    # a symbol named in the source may not be defined: a plain index into the symbol table outside any handler ends in KeyError, not in a diagnostic
+    if repo.has_cls("Program"):
+        for mn in ("process", "translate_statements"):
+            f = repo.cls("Program").methods.get(mn)
+            if f is None:
+                continue
+            for x in ast.walk(f.node):
+                if isinstance(x, ast.Subscript) and isinstance(x.ctx, ast.Load) and U(x.value) == "self.symbol_table" and not isinstance(x.slice, ast.Constant):
+                    key_names = {y.id for y in ast.walk(x.slice) if isinstance(y, ast.Name)}
+                    from_items = any(isinstance(l_, ast.For) and "symbol_table" in U(l_.iter) and key_names & {y.id for y in ast.walk(l_.target) if isinstance(y, ast.Name)}
+                                     and any(z is x for z in ast.walk(l_)) for l_ in ast.walk(f.node))
+                    tr = _enclosing_try(f.node, x)
+                    caught = tr is not None and any(h.type is None or any(nm in U(h.type) for nm in ("KeyError", "LookupError", "Exception")) for h in tr.handlers)
+                    guarded = any(isinstance(i_, ast.If) and re.search(r"\bin self\.symbol_table\b", U(i_.test)) and any(z is x for z in ast.walk(i_)) for i_ in ast.walk(f.node))
+                    if not (from_items or caught or guarded):
+                        c.finding("%s:symbol_table[%s]" % (f.q, U(x.slice)[:30]), "looks a name from the source up with a plain index, outside any handler",
+                                  "%s reads `%s`: the key comes from the source text, and a name that is not defined raises KeyError there - no handler turns it into a "
+                                  "TranslationError, so the assembler ends in a traceback" % (f.q, U(x)[:60]), repo.loc(f, x))
+    # a file may be empty: the first / last element of what readlines() returned is not there to be indexed
+    if repo.has_cls("SourceFile"):
+        for f in repo.cls("SourceFile").methods.values():
+            rl = {U(n_.targets[0]) for n_ in ast.walk(f.node) if isinstance(n_, ast.Assign) and isinstance(n_.value, ast.Call) and isinstance(n_.value.func, ast.Attribute)
+                  and n_.value.func.attr in ("readlines", "read", "splitlines")}
+            g_ = None
+            for x in ast.walk(f.node):
+                if isinstance(x, ast.Subscript) and not isinstance(x.slice, ast.Slice) and U(x.value) in rl and try_fold(x.slice) in (0, -1):
+                    g_ = g_ or CFG(f.node)
+                    tr = _enclosing_try(f.node, x)
+                    caught = tr is not None and any(h.type is None or any(nm in U(h.type) for nm in ("IndexError", "LookupError", "Exception")) for h in tr.handlers)
+                    if not caught and not _guarded(g_, f, U(x.value), x):
+                        c.finding("%s:%s[%s]" % (f.q, U(x.value), try_fold(x.slice)), "indexes the lines of a file that may be empty",
+                                  "%s reads `%s` with no emptiness check: a zero-byte source or INCLUDE file gives an empty list and the IndexError - not an OSError - passes every "
+                                  "handler around the read and ends the assembler in a traceback" % (f.q, U(x)), repo.loc(f, x))
     # the listing getters render whatever value kinds the table holds: some kinds render as the empty string (an EQU that names another symbol, an EQU
     # without operand), and int('') is a ValueError
     empties = []
